@@ -44,6 +44,7 @@ type outUDP struct {
 	c        zerocopy.UDPClient
 	needsIP  bool // packer resolves domain targets through the system resolver: only IP targets are pushed through it
 	headroom zerocopy.Headroom
+	packer   zerocopy.ClientPacker
 }
 
 type env struct {
